@@ -108,6 +108,10 @@ func vfC23Cap(name string) (RTPCodecCapability, RTPCodecType, bool) {
 		return RTPCodecCapability{MimeType: MimeTypeH264, ClockRate: 90000, SDPFmtpLine: "level-asymmetry-allowed=1;packetization-mode=1;profile-level-id=42e01f"}, RTPCodecTypeVideo, true
 	case "AV1":
 		return RTPCodecCapability{MimeType: MimeTypeAV1, ClockRate: 90000}, RTPCodecTypeVideo, true
+	case "PCMU":
+		return RTPCodecCapability{MimeType: MimeTypePCMU, ClockRate: 8000}, RTPCodecTypeAudio, true
+	case "G722":
+		return RTPCodecCapability{MimeType: MimeTypeG722, ClockRate: 8000}, RTPCodecTypeAudio, true
 	}
 	return RTPCodecCapability{}, 0, false
 }
@@ -469,8 +473,8 @@ func vfC23Run(v *vfT, c vfC23Case) {
 		}
 	}
 	var lmu sync.Mutex
-	lossTrack := map[uint32]int{}             // media SSRC -> track index (tracks with RTX only)
-	dataStart := make([]int, len(c.Tracks))   // sequence number of data packet 0, -1 = not yet known
+	lossTrack := map[uint32]int{}           // media SSRC -> track index (tracks with RTX only)
+	dataStart := make([]int, len(c.Tracks)) // sequence number of data packet 0, -1 = not yet known
 	dropped := 0
 	for i := range dataStart {
 		dataStart[i] = -1
@@ -885,4 +889,428 @@ func TestVerif_C23_Media(t *testing.T) {
 		}
 		return c
 	}, vfC23Run)
+}
+
+// ---- both directions, different codecs of one kind ---------------------------------------------
+//
+// Both peers use the SAME multi-codec MediaEngine (RegisterDefaultCodecs, or a drawn permutation
+// of a drawn subset with sequential payload types); each side adds one track of the same kind
+// before the exchange, generally with different codecs, on one sendrecv m-section (or the offerer
+// additionally offers a recvonly section).  Every direction that the two descriptions negotiate
+// (sender's section announces an SSRC, the other side's section for that mid receives) is held
+// to the statement: the written RTP arrives on a TrackRemote with that SSRC, the answer's payload
+// type for the codec, the written payload, the sender's codec and msid.
+//
+// Non-arrival is inconclusive by itself.  It becomes a violation only with this positive
+// evidence, taken from pion's own receive path: the receiving PeerConnection has a TrackRemote
+// for the announced SSRC (RTPReceiver.Tracks()) that was never handed to OnTrack while the pair
+// stayed connected and the writer kept writing, and TrackRemote.Read on it returns a packet
+// (n > 0) carrying the announced SSRC and the payload type the answer lists for the codec,
+// together with an error -- i.e. the media demonstrably reached the negotiated stream's reader
+// and pion refused to deliver it.  (A Read that succeeds is "late", counted inconclusive.)
+
+type vfC23BiCase struct {
+	Kind      string    `json:"kind"`    // video | audio
+	Default   bool      `json:"default"` // RegisterDefaultCodecs on both sides
+	Table     []string  `json:"table"`   // otherwise: codec order of the shared table
+	RTX       bool      `json:"rtx"`
+	Send      [2]string `json:"send"`       // codec sent by the offerer / by the answerer
+	ExtraRecv bool      `json:"extra_recv"` // the offerer also offers a recvonly section of that kind
+	Seeds     [2]uint32 `json:"seeds"`
+	StartSeq  [2]int    `json:"start_seq"`
+}
+
+func vfC23BiME(c vfC23BiCase) func() *MediaEngine {
+	return func() *MediaEngine {
+		me := &MediaEngine{}
+		if c.Default {
+			_ = me.RegisterDefaultCodecs()
+			return me
+		}
+		pt := 96
+		for _, name := range c.Table {
+			cp, kind, ok := vfC23Cap(name)
+			if !ok {
+				continue
+			}
+			_ = me.RegisterCodec(RTPCodecParameters{RTPCodecCapability: cp, PayloadType: PayloadType(pt)}, kind)
+			if c.RTX && kind == RTPCodecTypeVideo {
+				_ = me.RegisterCodec(RTPCodecParameters{
+					RTPCodecCapability: RTPCodecCapability{MimeType: MimeTypeRTX, ClockRate: 90000, SDPFmtpLine: fmt.Sprintf("apt=%d", pt)},
+					PayloadType:        PayloadType(pt + 1),
+				}, kind)
+			}
+			pt += 2
+		}
+		return me
+	}
+}
+
+func vfC23Direction(sd *sdp.SessionDescription, mid string) string {
+	for _, md := range sd.MediaDescriptions {
+		if m, _ := md.Attribute("mid"); m != mid {
+			continue
+		}
+		for _, a := range md.Attributes {
+			switch a.Key {
+			case "sendrecv", "sendonly", "recvonly", "inactive":
+				return a.Key
+			}
+		}
+		return "sendrecv"
+	}
+	return ""
+}
+
+const (
+	vfC23BiArriveWindow = 3 * time.Second // the writer keeps writing this long before non-arrival is looked into
+)
+
+func vfC23BiRun(v *vfT, c vfC23BiCase) {
+	pair, err := vfFamDNewPair(vfFamDPeer{ME: vfC23BiME(c)}, vfFamDPeer{ME: vfC23BiME(c)}, 0)
+	if err != nil {
+		v.Skip("pair construction failed: " + err.Error())
+	}
+	defer pair.Close()
+	pcs := [2]*PeerConnection{pair.Off, pair.Ans}
+	var caps [2]RTPCodecCapability
+	var locals [2]*TrackLocalStaticRTP
+	var senders [2]*RTPSender
+	var kind RTPCodecType
+	for s := 0; s < 2; s++ {
+		cp, k, ok := vfC23Cap(c.Send[s])
+		if !ok {
+			v.Skip("unknown codec")
+		}
+		caps[s], kind = cp, k
+		tr, terr := NewTrackLocalStaticRTP(cp, fmt.Sprintf("t%d", s), fmt.Sprintf("s%d", s))
+		if terr != nil {
+			v.Skip(terr.Error())
+		}
+		locals[s] = tr
+		if senders[s], terr = pcs[s].AddTrack(tr); terr != nil {
+			v.Skip("AddTrack: " + terr.Error())
+		}
+	}
+	if c.ExtraRecv {
+		if _, err = pair.Off.AddTransceiverFromKind(kind, RTPTransceiverInit{Direction: RTPTransceiverDirectionRecvonly}); err != nil {
+			v.Skip(err.Error())
+		}
+		v.Label("bi:extra-recvonly-section")
+	}
+	v.Label("bi:kind=" + c.Kind)
+	if c.Default {
+		v.Label("bi:default-table")
+	}
+	if c.Send[0] != c.Send[1] {
+		v.Label("bi:different-codecs")
+	}
+
+	// receivers on both sides
+	var rmu sync.Mutex
+	var rxs [2][]*vfC23Rx
+	var firstSeen [2]bool // firstSeen[s]: a packet written by side s was read on the other side
+	for r := 0; r < 2; r++ {
+		r := r
+		pcs[r].OnTrack(func(tr *TrackRemote, _ *RTPReceiver) {
+			rx := &vfC23Rx{track: tr}
+			rmu.Lock()
+			rxs[r] = append(rxs[r], rx)
+			rmu.Unlock()
+			go func() {
+				for {
+					p, _, rerr := tr.ReadRTP()
+					if rerr != nil {
+						return
+					}
+					rx.mu.Lock()
+					rx.pkts = append(rx.pkts, p)
+					rx.mu.Unlock()
+					if len(p.Payload) >= 5 && p.Payload[0] == 0xC2 && int(p.Payload[1]) == 1-r {
+						rmu.Lock()
+						firstSeen[1-r] = true
+						rmu.Unlock()
+					}
+				}
+			}()
+		})
+	}
+	if err = pair.Signal(nil, nil); err != nil {
+		v.Label("inconclusive:bi/signal-error")
+		v.Logf("C23 bi %+v: %v", c, err)
+		return
+	}
+	if !pair.WaitConnected(vfC23Watchdog) {
+		v.Label("inconclusive:bi/not-connected")
+		return
+	}
+	var descs [2]sdp.SessionDescription
+	var sections [2]map[string]*vfC23Section
+	for s := 0; s < 2; s++ {
+		ld := pcs[s].LocalDescription()
+		if ld == nil {
+			v.Skip("no local description")
+		}
+		var perr error
+		if sections[s], _, perr = vfC23Sections(ld.SDP); perr != nil {
+			v.Skip(perr.Error())
+		}
+		if perr = descs[s].UnmarshalString(ld.SDP); perr != nil {
+			v.Skip(perr.Error())
+		}
+	}
+	answer := &descs[1]
+
+	// which directions did the descriptions negotiate
+	type direction struct {
+		ok     bool
+		mid    string
+		ssrc   uint32
+		sec    *vfC23Section
+		wantPT int
+	}
+	var dirs [2]direction
+	for s := 0; s < 2; s++ {
+		mid := ""
+		for _, tc := range pcs[s].GetTransceivers() {
+			if tc.Sender() == senders[s] {
+				mid = tc.Mid()
+			}
+		}
+		sec := sections[s][mid]
+		if mid == "" || sec == nil || len(sec.primary) != 1 {
+			v.Label("bi:direction-not-negotiated")
+			continue
+		}
+		own, far := vfC23Direction(&descs[s], mid), vfC23Direction(&descs[1-s], mid)
+		if (own != "sendrecv" && own != "sendonly") || (far != "sendrecv" && far != "recvonly") {
+			v.Label("bi:direction-not-negotiated")
+			continue
+		}
+		dirs[s] = direction{true, mid, sec.primary[0], sec, vfC23AnswerPT(answer, mid, caps[s].MimeType, caps[s].ClockRate, caps[s].SDPFmtpLine)}
+		if dirs[s].wantPT < 0 {
+			// the answer does not list the codec in that section: nothing was negotiated for it
+			dirs[s].ok = false
+			v.Label("bi:codec-not-in-answer")
+		}
+	}
+	if dirs[0].ok && dirs[1].ok {
+		v.Label("bi:both-directions-negotiated")
+		if dirs[0].mid == dirs[1].mid {
+			v.Label("bi:one-sendrecv-section")
+		}
+	}
+
+	// writers: probes until seen (or the window closes), then 20 compared packets; `keep` keeps a
+	// direction alive while non-arrival is investigated
+	type sentPkt struct{ payload []byte }
+	var smu sync.Mutex
+	sent := [2]map[[2]int][]byte{{}, {}}
+	stop := make(chan struct{})
+	var wwg sync.WaitGroup
+	var arriveDone [2]chan struct{}
+	for s := 0; s < 2; s++ {
+		arriveDone[s] = make(chan struct{})
+		if !dirs[s].ok {
+			close(arriveDone[s])
+			continue
+		}
+		wwg.Add(1)
+		go func(s int) {
+			defer wwg.Done()
+			seq := uint16(c.StartSeq[s])
+			ts := c.Seeds[s]
+			write := func(phase, idx int) {
+				pl := vfC23Payload(s, phase, idx, c.Seeds[s])
+				smu.Lock()
+				sent[s][[2]int{phase, idx}] = pl
+				smu.Unlock()
+				_ = locals[s].WriteRTP(&rtp.Packet{
+					Header:  rtp.Header{Version: 2, SequenceNumber: seq, Timestamp: ts, SSRC: 0xdeadbeef},
+					Payload: pl,
+				})
+				seq++
+				ts += 960
+			}
+			deadline := time.Now().Add(vfC23BiArriveWindow)
+			idx := 0
+			for ; ; idx++ {
+				rmu.Lock()
+				seen := firstSeen[s]
+				rmu.Unlock()
+				if seen || time.Now().After(deadline) {
+					break
+				}
+				write(0, idx)
+				time.Sleep(3 * time.Millisecond)
+			}
+			for k := 0; k < 20; k++ {
+				write(1, k)
+				time.Sleep(500 * time.Microsecond)
+			}
+			close(arriveDone[s])
+			// keep the stream alive until the case ends (evidence for a non-arrival needs traffic)
+			for k := 0; ; k++ {
+				select {
+				case <-stop:
+					return
+				default:
+				}
+				write(2, k%60000)
+				time.Sleep(3 * time.Millisecond)
+			}
+		}(s)
+	}
+	defer func() { close(stop); wwg.Wait() }()
+	for s := 0; s < 2; s++ {
+		<-arriveDone[s]
+	}
+	time.Sleep(30 * time.Millisecond)
+
+	compared := 0
+	for s := 0; s < 2; s++ {
+		d := dirs[s]
+		if !d.ok {
+			continue
+		}
+		r := 1 - s
+		where := fmt.Sprintf("%s->%s %s (mid %s, SSRC %d, table %v default=%v rtx=%v, other direction sends %s)",
+			[]string{"offerer", "answerer"}[s], []string{"offerer", "answerer"}[r], c.Send[s], d.mid, d.ssrc, c.Table, c.Default, c.RTX, c.Send[r])
+		rmu.Lock()
+		var rx *vfC23Rx
+		for _, x := range rxs[r] {
+			if uint32(x.track.SSRC()) == d.ssrc {
+				rx = x
+			}
+		}
+		rmu.Unlock()
+		if rx == nil {
+			// non-arrival: look for positive evidence in the receiving PeerConnection
+			healthy := pair.Off.ConnectionState() == PeerConnectionStateConnected && pair.Ans.ConnectionState() == PeerConnectionStateConnected
+			var pending *TrackRemote
+			for _, tc := range pcs[r].GetTransceivers() {
+				if rcv := tc.Receiver(); rcv != nil {
+					for _, tr := range rcv.Tracks() {
+						if uint32(tr.SSRC()) == d.ssrc {
+							pending = tr
+						}
+					}
+				}
+			}
+			switch {
+			case !healthy:
+				v.Label("inconclusive:bi/not-arrived-and-pair-not-connected")
+			case pending == nil:
+				v.Label("inconclusive:bi/not-arrived-no-receiver-track")
+			default:
+				buf := make([]byte, 1600)
+				verdict := "inconclusive:bi/not-arrived-no-packet-at-receiver"
+				for try := 0; try < 4; try++ {
+					_ = pending.SetReadDeadline(time.Now().Add(700 * time.Millisecond))
+					n, _, rerr := pending.Read(buf)
+					if n < 12 {
+						continue
+					}
+					gotSSRC := binary.BigEndian.Uint32(buf[8:12])
+					gotPT := int(buf[1] & 0x7f)
+					if rerr == nil {
+						verdict = "inconclusive:bi/late-arrival-read-by-harness"
+						break
+					}
+					if gotSSRC == d.ssrc && gotPT == d.wantPT {
+						rmu.Lock()
+						fired := false
+						for _, x := range rxs[r] {
+							fired = fired || uint32(x.track.SSRC()) == d.ssrc
+						}
+						rmu.Unlock()
+						if !fired {
+							v.Violation("C23/arrived-at-receiver-but-never-delivered",
+								"%s: written for %s and never handed to OnTrack, although the pair is connected and the receiving PeerConnection's own TrackRemote for the announced SSRC reads a packet of %d bytes with that SSRC and payload type %d (the one the answer lists for %s) and rejects it: %v",
+								where, vfC23BiArriveWindow, n, gotPT, c.Send[s], rerr)
+						}
+					}
+				}
+				v.Label(verdict)
+			}
+			continue
+		}
+		tr := rx.track
+		if !strings.EqualFold(tr.Codec().MimeType, caps[s].MimeType) {
+			v.Violation("C23/remote-codec", "%s: TrackRemote.Codec().MimeType=%q", where, tr.Codec().MimeType)
+		}
+		if d.sec.hasMsid && (tr.StreamID() != d.sec.msidS || tr.ID() != d.sec.msidT) {
+			v.Violation("C23/remote-stream-id", "%s: TrackRemote stream/track id %q/%q, a=msid says %q/%q", where, tr.StreamID(), tr.ID(), d.sec.msidS, d.sec.msidT)
+		}
+		if int(tr.PayloadType()) != d.wantPT {
+			v.Violation("C23/payload-type", "%s: TrackRemote.PayloadType()=%d, the answer lists %d", where, tr.PayloadType(), d.wantPT)
+		}
+		rx.mu.Lock()
+		pkts := append([]*rtp.Packet{}, rx.pkts...)
+		rx.mu.Unlock()
+		for k, p := range pkts {
+			if p.SSRC != d.ssrc {
+				v.Violation("C23/packet-ssrc", "%s: packet %d carries SSRC %d", where, k, p.SSRC)
+			}
+			if int(p.PayloadType) != d.wantPT {
+				v.Violation("C23/payload-type", "%s: packet %d carries payload type %d, the answer lists %d", where, k, p.PayloadType, d.wantPT)
+			}
+			pl := p.Payload
+			if len(pl) < 5 || pl[0] != 0xC2 {
+				v.Violation("C23/payload-corrupted", "%s: packet %d: untagged payload of %d bytes", where, k, len(pl))
+			}
+			if int(pl[1]) != s {
+				v.Violation("C23/payload-on-wrong-stream", "%s: packet %d was written by side %d", where, k, pl[1])
+			}
+			smu.Lock()
+			want, ok := sent[s][[2]int{int(pl[2]), int(binary.BigEndian.Uint16(pl[3:5]))}]
+			smu.Unlock()
+			if !ok || !bytes.Equal(want, pl) {
+				v.Violation("C23/payload-corrupted", "%s: packet %d: %d payload bytes received, %d written (known=%v)", where, k, len(pl), len(want), ok)
+			}
+			compared++
+		}
+		v.Label("bi:direction-compared")
+	}
+	if compared >= 10 && dirs[0].ok && dirs[1].ok {
+		v.NonTrivial()
+	}
+}
+
+func TestVerif_C23_Bidirectional(t *testing.T) {
+	vfProperty(t, "C23", vfOpts{
+		Rule: "both peers share one multi-codec MediaEngine (default table, or a drawn permutation of 2..4 of VP8/VP9/H264/AV1 resp. opus/PCMU/G722, RTX on/off); each side adds one track of the same kind before the exchange (codecs drawn independently, mostly different) on one sendrecv section (optionally plus a recvonly section); non-trivial = both directions negotiated and at least 10 packets compared",
+		Assumptions: []string{
+			"a direction counts as negotiated when the sender's section announces one primary SSRC, its direction sends, the other side's section for that mid receives and the answer lists the codec there",
+			"non-arrival alone is inconclusive; it is reported only when the receiving PeerConnection's own TrackRemote for the announced SSRC returns, from Read, a packet with that SSRC and the answer's payload type together with an error, the pair being connected and the track never handed to OnTrack",
+		},
+	}, func(v *vfT) vfC23BiCase {
+		c := vfC23BiCase{Kind: rapid.SampledFrom([]string{"video", "video", "video", "audio"}).Draw(v.R, "kind")}
+		pool := []string{"VP8", "VP9", "H264", "AV1"}
+		if c.Kind == "audio" {
+			pool = []string{"opus", "PCMU", "G722"}
+		}
+		c.Default = rapid.IntRange(0, 2).Draw(v.R, "default") == 0
+		avail := pool
+		if !c.Default {
+			perm := rapid.Permutation(pool).Draw(v.R, "table")
+			c.Table = perm[:rapid.IntRange(2, len(perm)).Draw(v.R, "table_len")]
+			c.RTX = c.Kind == "video" && rapid.Bool().Draw(v.R, "rtx")
+			avail = c.Table
+		}
+		c.Send[0] = rapid.SampledFrom(avail).Draw(v.R, "send_off")
+		c.Send[1] = rapid.SampledFrom(avail).Draw(v.R, "send_ans")
+		if c.Send[0] == c.Send[1] && rapid.IntRange(0, 3).Draw(v.R, "force_diff") != 0 {
+			for _, n := range avail {
+				if n != c.Send[0] {
+					c.Send[1] = n
+					break
+				}
+			}
+		}
+		c.ExtraRecv = rapid.IntRange(0, 3).Draw(v.R, "extra_recv") == 0
+		c.Seeds = [2]uint32{rapid.Uint32().Draw(v.R, "seed0"), rapid.Uint32().Draw(v.R, "seed1")}
+		c.StartSeq = [2]int{rapid.SampledFrom([]int{0, 1000, 65530}).Draw(v.R, "seq0"), rapid.SampledFrom([]int{0, 1000, 65530}).Draw(v.R, "seq1")}
+		return c
+	}, vfC23BiRun)
 }
